@@ -5,11 +5,11 @@
   when `b − a` overflows; `a + (b − a) = b` rounds), so it is not instantiated. But the two theorems about the binary search,
   `bsLoop_hit` and `idxOfDist_hit`, use only its order fields `lt_irrefl`, `lt_asymm`, which hold of IEEE `<`
   (Lemmas/FloatModelOrder.lean). They are re-proved here for every scalar with IEEE comparisons (same proof, the two fields
-  replaced by `FM.lt_irrefl` / `FM.lt_asymm`) and stated for `Float`: **on strictly increasing cumulative lengths `idx_of_dist`
+  replaced by `FMO.lt_irrefl` / `FMO.lt_asymm`) and stated for `Float`: **on strictly increasing cumulative lengths `idx_of_dist`
   finds the index of an exact hit — for IEEE doubles.**
 -/
 import RosuModel.Props.C19
-import RosuModel.Lemmas.FloatModelOrder
+import RosuModel.Lemmas.FloatModelCompare
 namespace Rosu.C19
 open Rosu Rosu.Curve
 
@@ -17,10 +17,10 @@ open Rosu Rosu.Curve
 theorem posLaws_order_float :
     (∀ a : Float, Scalar.lt a a = false) ∧ (∀ a b : Float, Scalar.lt a b = true → Scalar.lt b a = false) ∧
     Scalar.lt (1 : Float) (0 : Float) = false :=
-  ⟨FM.lt_irrefl, FM.lt_asymm, by decide +kernel⟩
+  ⟨FMO.lt_irrefl, FMO.lt_asymm, by decide +kernel⟩
 
 section Generic
-variable {F : Type} [Scalar F] [FM.IeeeOrd F]
+variable {F : Type} [Scalar F] [FMO.IeeeOrd F]
 
 /-- `bsLoop_hit` from IEEE order alone. -/
 theorem bsLoop_hit_ieee (lengths : List F) (hs : StrictSorted lengths) (t : Nat) (d : F)
@@ -41,7 +41,7 @@ theorem bsLoop_hit_ieee (lengths : List F) (hs : StrictSorted lengths) (t : Nat)
       rw [hx]
       rcases Nat.lt_or_ge t (base + size / 2) with hlt | hge
       · have h1' := hs t (base + size / 2) d _ hlt ht hx'
-        have h2' := FM.lt_asymm _ _ h1'
+        have h2' := FMO.lt_asymm _ _ h1'
         have hc : cmpLen lengths[base + size / 2] d = .gt := by simp [cmpLen, h1', h2']
         simp only [hc, beq_self_eq_true, if_true]
         exact ih base (size - size / 2) (by omega) h2 (by omega) (by omega)
@@ -53,7 +53,7 @@ theorem bsLoop_hit_ieee (lengths : List F) (hs : StrictSorted lengths) (t : Nat)
             have : lengths[base + size / 2] = d := by
               have h5 : lengths[base + size / 2]? = some d := by rw [he]; exact ht
               rw [hx'] at h5; exact Option.some.inj h5
-            simp [cmpLen, this, FM.lt_irrefl]
+            simp [cmpLen, this, FMO.lt_irrefl]
         simp only [hc, Bool.false_eq_true, if_false]
         exact ih (base + size / 2) (size - size / 2) (by omega) hge (by omega) (by omega)
     · omega
@@ -72,7 +72,7 @@ theorem idxOfDist_hit_ieee (lengths : List F) (hs : StrictSorted lengths) (t : N
     (by omega) (by omega)]
   have hx : lengths.getD t 0 = d := by rw [List.getD_eq_getElem?_getD, ht]; rfl
   rw [hx]
-  simp [cmpLen, FM.lt_irrefl]
+  simp [cmpLen, FMO.lt_irrefl]
 
 end Generic
 
